@@ -274,9 +274,13 @@ class SimDevice(object):
                     pieces.append(rec[i2:i2 + n2])
                     i2 += n2
                     k2 += 1
-            for piece in pieces:        # all of them overtake the OKAY of the host's WRTE
+            nb = self.cfg.get("early_before")      # how many pieces overtake the OKAY of the host's WRTE (default: all of them);
+            if nb is None or self.cfg.get("burst"):   # the rest follows one by one as the host acknowledges (old adbd writes header and reason apart)
+                nb = len(pieces)
+            for piece in pieces[:max(1, nb)]:
                 st.wrote.append(piece)
                 self.send(A_WRTE, st.remote, st.local, piece)
+            st.outq.extend(pieces[max(1, nb):])
             st.waiting_okay = True
             st.failed = True
         late_okay = self.cfg.get("okay_after_reply") and not getattr(st, "failed", False)
